@@ -1,6 +1,6 @@
 (* C20 - Breakdown view: rows always hold the sorted per-CPU breakdown values.
    Only statements here; proofs are in Proofs/SortProofs.v; the model (sort_replace, the sort
-   module, the two-mux pipeline of breakdown.c) is in Emu/SortDefs.v and is tied to the C code
+   module, the two-mux pipeline of breakdown.c with mux_add_reselect) is in Emu/SortDefs.v and is tied to the C code
    by lib/checks/c20.py (harness/sort_h.c runs the real sort.c / breakdown.c connect_cpu). *)
 From OV Require Import Base.CInt Emu.SortDefs Proofs.SortProofs.
 From Coq Require Import Sorted Permutation.
@@ -90,64 +90,104 @@ Print Assumptions C20_spec_decider.
 
 (* --- the wiring of one CPU (mux0, mux1, tri -> sort input) ------------------------------- *)
 
-(* FULL statement wanted (DESIGN 6.20, "C20_wiring"):
-     forall h st', cpu_run B U P w_init h = Some st' -> w_sval st' = bd_of B U P st'
-   i.e. after every event the sort module holds bd_value of the CPU's channels.  It is FALSE
-   (C20_wiring_refuted below).  Proved instead, for every history whose batches satisfy
-   [batch_ok] (each channel written once; idle enters the dirty list last; the first batch
-   writes the subsystem; a batch that writes the task type WITHOUT the subsystem does not
-   change select_tr's choice).  Missing for the full statement: the last condition. *)
-Theorem C20_wiring_partial : forall BODY UNKNOWN PROG h,
-  history_ok BODY UNKNOWN PROG w_init h = true ->
-  exists st', cpu_run BODY UNKNOWN PROG w_init h = Some st' /\
+(* The pipeline functions take `fx : bool` first: true = connect_cpu as repaired by /repo commit
+   bca364a (mux0 runs select_tr again when the task type changes), false = the code before.
+
+   DESIGN 6.20, "C20_wiring": after every event (bay_propagate) the sort module holds bd_value of
+   the CPU's channels, for every history of batches the emulator can produce.  [history_ok true]
+   is exactly that: each batch writes each CPU channel at most once, idle enters the dirty list
+   last, and the first batch that reaches a CPU writes the subsystem (C20_batch_ok_fixed).  The
+   last two are needed (C20_wiring_order_needed, C20_wiring_first_batch_needed); they are
+   properties of the emulator above the CPU channels (registration order in model_cpu.c), read
+   from the source and exercised end to end, see the check's trusted base. *)
+Theorem C20_wiring : forall BODY UNKNOWN PROG h,
+  history_ok true BODY UNKNOWN PROG w_init h = true ->
+  exists st', cpu_run true BODY UNKNOWN PROG w_init h = Some st' /\
               cin_values st' = cin_values (fold_left written h w_init) /\
               w_sval st' = bd_of BODY UNKNOWN PROG st'.
-Proof. exact wiring_partial. Qed.
-Print Assumptions C20_wiring_partial.
+Proof. exact wiring. Qed.
+Print Assumptions C20_wiring.
 
-(* witness: OHx ; VTx ; VTp  - the row shows 0 where select_tr would show the subsystem (11) *)
-Theorem C20_wiring_refuted :
-  exists st', cpu_run 11 2 100 w_init wit_pause_in_body = Some st' /\
-              w_sval st' = 0 /\ bd_of 11 2 100 st' = 11 /\ w_sval st' <> bd_of 11 2 100 st'.
-Proof. exact wiring_refuted_pause. Qed.
-Print Assumptions C20_wiring_refuted.
-
-(* witness: ... ; OHp ; OHr ; VTr - the row shows "Task: In body" (11) instead of the task type *)
-Theorem C20_wiring_resume_refuted :
-  exists st', cpu_run 11 2 100 w_init wit_resume_in_body = Some st' /\
-              w_sval st' = 11 /\ bd_of 11 2 100 st' = 77.
-Proof. exact wiring_refuted_resume. Qed.
-Print Assumptions C20_wiring_resume_refuted.
-
-(* the row value is not a function of the CPU's channel values *)
-Theorem C20_wiring_history_dependent_refuted :
-  exists h1 h2 s1 s2,
-    cpu_run 11 2 100 w_init h1 = Some s1 /\ cpu_run 11 2 100 w_init h2 = Some s2 /\
-    cin_values s1 = cin_values s2 /\ w_sval s1 <> w_sval s2.
-Proof. exact wiring_history_dependent. Qed.
-Print Assumptions C20_wiring_history_dependent_refuted.
+(* what [batch_ok true] asks of a batch: nothing about select_tr any more *)
+Theorem C20_batch_ok_fixed : forall BODY st b,
+  batch_ok true BODY st b =
+  once b && idle_last b &&
+  (if mux0_unevaluated st then match b with [] => true | _ => writes_to CSS b end else true).
+Proof. exact batch_ok_fixed. Qed.
+Print Assumptions C20_batch_ok_fixed.
 
 (* the registration-order hazard: with idle dirty before the subsystem the sort input is stale *)
 Theorem C20_wiring_order_needed :
-  exists st', cpu_run 11 2 100 w_init
+  exists st', cpu_run true 11 2 100 w_init
                 [ [(CTT, VNull); (CSS, VInt 6); (CIDLE, VInt 100)];
                   [(CIDLE, VInt 100); (CSS, VInt 7)] ] = Some st' /\
               w_tri st' = VInt 7 /\ w_sval st' = 6 /\ bd_of 11 2 100 st' = 7.
 Proof. exact wiring_order_needed. Qed.
 Print Assumptions C20_wiring_order_needed.
 
+(* a CPU whose first batch writes idle alone shows 0 where the breakdown value is "Unknown subsystem" *)
+Theorem C20_wiring_first_batch_needed :
+  exists st', cpu_run true 11 2 100 w_init [ [(CIDLE, VInt 100)] ] = Some st' /\
+              w_sval st' = 0 /\ bd_of 11 2 100 st' = 2.
+Proof. exact wiring_first_batch_needed. Qed.
+Print Assumptions C20_wiring_first_batch_needed.
+
+(* --- the defect repaired by bca364a, on the model of the code before the repair ---------- *)
+
+(* witness: OHx ; VTx ; VTp  - the row showed 0 where select_tr would show the subsystem (11) *)
+Theorem C20_wiring_refuted_old :
+  exists st', cpu_run false 11 2 100 w_init wit_pause_in_body = Some st' /\
+              w_sval st' = 0 /\ bd_of 11 2 100 st' = 11 /\ w_sval st' <> bd_of 11 2 100 st'.
+Proof. exact wiring_refuted_pause_old. Qed.
+Print Assumptions C20_wiring_refuted_old.
+
+(* witness: ... ; OHp ; OHr ; VTr - the row showed "Task: In body" (11) instead of the task type *)
+Theorem C20_wiring_resume_refuted_old :
+  exists st', cpu_run false 11 2 100 w_init wit_resume_in_body = Some st' /\
+              w_sval st' = 11 /\ bd_of 11 2 100 st' = 77.
+Proof. exact wiring_refuted_resume_old. Qed.
+Print Assumptions C20_wiring_resume_refuted_old.
+
+(* the row value was not a function of the CPU's channel values *)
+Theorem C20_wiring_history_dependent_refuted_old :
+  exists h1 h2 s1 s2,
+    cpu_run false 11 2 100 w_init h1 = Some s1 /\ cpu_run false 11 2 100 w_init h2 = Some s2 /\
+    cin_values s1 = cin_values s2 /\ w_sval s1 <> w_sval s2.
+Proof. exact wiring_history_dependent_old. Qed.
+Print Assumptions C20_wiring_history_dependent_refuted_old.
+
+(* what did hold before the repair: histories that, besides, keep select_tr's choice whenever a
+   batch writes the task type WITHOUT the subsystem ([history_ok false]) *)
+Theorem C20_wiring_old_partial : forall BODY UNKNOWN PROG h,
+  history_ok false BODY UNKNOWN PROG w_init h = true ->
+  exists st', cpu_run false BODY UNKNOWN PROG w_init h = Some st' /\
+              cin_values st' = cin_values (fold_left written h w_init) /\
+              w_sval st' = bd_of BODY UNKNOWN PROG st'.
+Proof. exact wiring_old_partial. Qed.
+Print Assumptions C20_wiring_old_partial.
+
+(* the repaired code on the two witness histories: admissible, rows right (11, then 77) *)
+Theorem C20_wiring_witnesses_fixed :
+  history_ok true 11 2 100 w_init wit_resume_in_body = true /\
+  (exists st', cpu_run true 11 2 100 w_init wit_pause_in_body = Some st' /\
+               w_sval st' = 11 /\ bd_of 11 2 100 st' = 11) /\
+  (exists st', cpu_run true 11 2 100 w_init wit_resume_in_body = Some st' /\
+               w_sval st' = 77 /\ bd_of 11 2 100 st' = 77).
+Proof. exact wiring_witnesses_fixed. Qed.
+Print Assumptions C20_wiring_witnesses_fixed.
+
 (* --- all physical CPUs + sort: the rows of the breakdown trace ---------------------------- *)
 
-(* After any admissible history over n CPUs the rows are sorted and are exactly the multiset of
-   the per-CPU breakdown values.  `_partial` for the same reason as C20_wiring_partial. *)
-Theorem C20_rows_system_partial : forall BODY UNKNOWN PROG n h,
-  sys_history_ok BODY UNKNOWN PROG (sys_init n) h = true ->
-  exists s, sys_run BODY UNKNOWN PROG (sys_init n) h = Some s /\
+(* After any history over n CPUs of batches the emulator can produce, the rows are sorted and are
+   exactly the multiset of the per-CPU breakdown values. *)
+Theorem C20_rows_system : forall BODY UNKNOWN PROG n h,
+  sys_history_ok true BODY UNKNOWN PROG (sys_init n) h = true ->
+  exists s, sys_run true BODY UNKNOWN PROG (sys_init n) h = Some s /\
     length (s_cpus s) = n /\
     Sorted Z.le (rows_of (s_sort s)) /\
     Permutation (rows_of (s_sort s)) (map (bd_of BODY UNKNOWN PROG) (s_cpus s)).
 Proof. exact system_rows. Qed.
-Print Assumptions C20_rows_system_partial.
+Print Assumptions C20_rows_system.
 
 (* --- non-vacuity ------------------------------------------------------------------------ *)
 
@@ -174,16 +214,25 @@ Example C20_ex_writes :
 Proof. vm_compute. reflexivity. Qed.
 
 (* ex_history (Proofs/SortProofs.v): OHx; VHw; VTx; VAp; VTp; VTr; VAP; VPr; VPp; VTe *)
-Example C20_ex_history_ok : history_ok 11 2 100 w_init ex_history = true.
+Example C20_ex_history_ok : history_ok true 11 2 100 w_init ex_history = true.
 Proof. vm_compute. reflexivity. Qed.
 Example C20_ex_history_value :
-  exists st, cpu_run 11 2 100 w_init (firstn 7 ex_history) = Some st /\ w_sval st = 77 /\ bd_of 11 2 100 st = 77.
+  exists st, cpu_run true 11 2 100 w_init (firstn 7 ex_history) = Some st /\ w_sval st = 77 /\ bd_of 11 2 100 st = 77.
 Proof. eexists. vm_compute. repeat split. Qed.
 Example C20_ex_system :
-  sys_history_ok 11 2 100 (sys_init 3)
+  sys_history_ok true 11 2 100 (sys_init 3)
     [ (0%nat, [(CTT, VNull); (CSS, VNull); (CIDLE, VInt 100)]); (2%nat, [(CTT, VNull); (CSS, VNull); (CIDLE, VInt 100)]);
       (0%nat, [(CSS, VInt 28)]); (2%nat, [(CSS, VInt 11); (CTT, VInt 77)]); (0%nat, [(CIDLE, VInt 101)]) ] = true.
 Proof. vm_compute. reflexivity. Qed.
-(* the refuting history is rejected by history_ok only through the select_tr condition *)
-Example C20_ex_refuted_not_ok : history_ok 11 2 100 w_init wit_pause_in_body = false.
+(* a system history with a task paused and resumed in its body on CPU 2 (VTx ; VTp ; VTr) *)
+Example C20_ex_system_pause_in_body :
+  sys_history_ok true 11 2 100 (sys_init 3)
+    [ (2%nat, [(CTT, VNull); (CSS, VNull); (CIDLE, VInt 100)]); (2%nat, [(CSS, VInt 11); (CTT, VInt 77)]);
+      (2%nat, [(CTT, VNull)]); (2%nat, [(CTT, VInt 77)]) ] = true.
+Proof. vm_compute. reflexivity. Qed.
+(* the old witness was rejected by [history_ok false] only through the select_tr condition,
+   which [history_ok true] no longer has *)
+Example C20_ex_old_witness_not_ok_old : history_ok false 11 2 100 w_init wit_pause_in_body = false.
+Proof. vm_compute. reflexivity. Qed.
+Example C20_ex_old_witness_ok : history_ok true 11 2 100 w_init wit_pause_in_body = true.
 Proof. vm_compute. reflexivity. Qed.
